@@ -93,6 +93,7 @@ bool with_fixed(Alloc<T>& al, F&& f) {
     if (al.fkind == 23) return f(*static_cast<FixedArray<T, false, 2, 3>*>(al.fixed.get()));
     if (al.fkind == 33) return f(*static_cast<FixedArray<T, false, 3, 3>*>(al.fixed.get()));
   }
+  if constexpr (R == 3) { if (al.fkind == 234) return f(*static_cast<FixedArray<T, false, 2, 3, 4>*>(al.fixed.get())); }
   return false;
 }
 
@@ -348,8 +349,8 @@ bool exec_ranked(World<T>& W, std::vector<std::string>& w, std::string& out) {
     int aflag = 0; bool hazard = false;
     bool done = with_fixed<R>(W.allocs[aid], [&](auto& fa) {
       int d[3] = {0, 0, 0}; for (int k = 0; k < R; ++k) d[k] = fa.dimension(k);
-      auto wl = [&](const int* c, T x) { if constexpr (R == 1) fa(c[0]) = x; else fa(c[0], c[1]) = x; };
-      std::function<T(const int*)> rl = [&](const int* c) { if constexpr (R == 1) return (T)fa(c[0]); else return (T)fa(c[0], c[1]); };
+      auto wl = [&](const int* c, T x) { if constexpr (R == 1) fa(c[0]) = x; else if constexpr (R == 2) fa(c[0], c[1]) = x; else fa(c[0], c[1], c[2]) = x; };
+      std::function<T(const int*)> rl = [&](const int* c) { if constexpr (R == 1) return (T)fa(c[0]); else if constexpr (R == 2) return (T)fa(c[0], c[1]); else return (T)fa(c[0], c[1], c[2]); };
       std::vector<T> expected;
       if (oracle_expected<R, T>(W, kind, d, wl, rl, 0, &sh, 0, 0, 0, expected)) { hazard = true; return true; }
       const T* pb; const T* pe; fa.data_range(pb, pe);
